@@ -5,12 +5,12 @@ Require Import DH.C06_Failures.Model DH.C06_Failures.Lemmas.
 
 (* the assumed behaviour of the library parts: same length, finite in -> finite out *)
 Definition scaler_ok (sc : list fnum -> list fnum) : Prop :=
-  forall l, length (sc l) = length l /\ (forallb finite l = true -> forallb finite (sc l) = true).
+  forall l, l <> [] -> length (sc l) = length l /\ (forallb finite l = true -> forallb finite (sc l) = true).
 Definition scalarizer_ok (scal : list (list fnum) -> list fnum) : Prop :=
-  forall vs, length (scal vs) = length vs /\ (forallb (forallb finite) vs = true -> forallb finite (scal vs) = true).
+  forall vs, vs <> [] -> length (scal vs) = length vs /\ (forallb (forallb finite) vs = true -> forallb finite (scal vs) = true).
 
 Lemma sc_id_ok : scaler_ok sc_id.
-Proof. intros l. split; [reflexivity | auto]. Qed.
+Proof. intros l _. split; [reflexivity | auto]. Qed.
 
 Lemma finite_dot w v : forallb finite v = true -> finite (dot w v) = true.
 Proof.
@@ -21,7 +21,7 @@ Qed.
 
 Lemma scal_lin_ok w : scalarizer_ok (scal_lin w).
 Proof.
-  intros vs. unfold scal_lin. split; [apply map_length|]. intros H. rewrite forallb_map.
+  intros vs _. unfold scal_lin. split; [apply map_length|]. intros H. rewrite forallb_map.
   apply forallb_forall. intros v Hv. apply finite_dot. rewrite forallb_forall in H. apply H. exact Hv.
 Qed.
 
@@ -51,9 +51,7 @@ Proof. destruct a; cbn; auto. Qed.
 
 Lemma scal_lin_u_ok w : scalarizer_ok (scal_lin_u w).
 Proof.
-  intros vs. unfold scal_lin_u. split; [apply map_length|]. intros H.
-  destruct vs as [|v0 vs0] eqn:E; [reflexivity|]. rewrite <- E in *.
-  assert (Hne : vs <> []) by (rewrite E; discriminate).
+  intros vs Hne. unfold scal_lin_u. split; [apply map_length|]. intros H.
   rewrite forallb_map. apply forallb_forall. intros v Hv.
   apply finite_fadd; [apply finite_dot; rewrite forallb_forall in H; apply H; exact Hv|].
   apply finite_fneg, finite_dot, finite_utopia; assumption.
@@ -74,6 +72,14 @@ Proof.
   - destruct (IH vals Hl Hf) as [I1 I2]. cbn. rewrite I1, I2. split; reflexivity.
 Qed.
 
+Lemma scatter_nosucc ys vals : succ_of ys = [] ->
+  forallb scalar_clean (scatter ys vals) = true /\ map is_fail (scatter ys vals) = map is_fail ys.
+Proof.
+  unfold succ_of. induction ys as [|t ys IH]; intros H; [split; reflexivity|].
+  destruct t as [x|v|]; cbn [filter is_fail negb] in H; try discriminate.
+  destruct (IH H) as [I1 I2]. cbn. rewrite I1, I2. split; reflexivity.
+Qed.
+
 Lemma succ_clean ys t : Forall (fun t => clean t = true) ys -> In t (succ_of ys) -> clean t = true /\ is_fail t = false.
 Proof.
   intros H Ht. unfold succ_of in Ht. apply filter_In in Ht. destruct Ht as [Hi Hn].
@@ -89,21 +95,27 @@ Section Fit.
   Lemma scalarized_spec ys : Forall (fun t => clean t = true) ys ->
     forallb scalar_clean (scalarized sc scal ys) = true /\ map is_fail (scalarized sc scal ys) = map is_fail ys.
   Proof.
-    intros Hc. unfold scalarized. destruct (existsb is_vec ys) eqn:Ev.
-    - destruct (Hscal (map vec_of (succ_of ys))) as [Hl Hf]. apply scatter_spec.
-      + rewrite Hl. apply map_length.
-      + apply Hf. rewrite forallb_map. apply forallb_forall. intros t Ht.
-        destruct (succ_clean ys t Hc Ht) as [Hct Hnf]. destruct t; cbn in *; [rewrite Hct; reflexivity | exact Hct | discriminate].
-    - destruct (Hsc (map num_of (succ_of ys))) as [Hl Hf]. apply scatter_spec.
-      + rewrite Hl. apply map_length.
-      + apply Hf. rewrite forallb_map. apply forallb_forall. intros t Ht.
-        destruct (succ_clean ys t Hc Ht) as [Hct Hnf].
-        assert (Hv : is_vec t = false).
-        { destruct (is_vec t) eqn:E; [|reflexivity]. exfalso.
-          assert (existsb is_vec ys = true).
-          { apply existsb_exists. exists t. split; [|exact E]. unfold succ_of in Ht. apply filter_In in Ht. tauto. }
-          congruence. }
-        destruct t; cbn in *; [exact Hct | discriminate | discriminate].
+    intros Hc. destruct (succ_of ys) as [|s0 ss] eqn:Es.
+    - (* only failures: nothing is scaled, whatever the scaler returns for the empty list *)
+      unfold scalarized. destruct (existsb is_vec ys); apply scatter_nosucc; exact Es.
+    - assert (Hne : succ_of ys <> []) by (rewrite Es; discriminate). clear Es.
+      unfold scalarized. destruct (existsb is_vec ys) eqn:Ev.
+      + assert (Hne' : map vec_of (succ_of ys) <> []) by (destruct (succ_of ys); [congruence | discriminate]).
+        destruct (Hscal (map vec_of (succ_of ys)) Hne') as [Hl Hf]. apply scatter_spec.
+        * rewrite Hl. apply map_length.
+        * apply Hf. rewrite forallb_map. apply forallb_forall. intros t Ht.
+          destruct (succ_clean ys t Hc Ht) as [Hct Hnf]. destruct t; cbn in *; [rewrite Hct; reflexivity | exact Hct | discriminate].
+      + assert (Hne' : map num_of (succ_of ys) <> []) by (destruct (succ_of ys); [congruence | discriminate]).
+        destruct (Hsc (map num_of (succ_of ys)) Hne') as [Hl Hf]. apply scatter_spec.
+        * rewrite Hl. apply map_length.
+        * apply Hf. rewrite forallb_map. apply forallb_forall. intros t Ht.
+          destruct (succ_clean ys t Hc Ht) as [Hct Hnf].
+          assert (Hv : is_vec t = false).
+          { destruct (is_vec t) eqn:E; [|reflexivity]. exfalso.
+            assert (existsb is_vec ys = true).
+            { apply existsb_exists. exists t. split; [|exact E]. unfold succ_of in Ht. apply filter_In in Ht. tauto. }
+            congruence. }
+          destruct t; cbn in *; [exact Hct | discriminate | discriminate].
   Qed.
 End Fit.
 
@@ -205,12 +217,12 @@ Section Pipeline.
   Lemma opt_policy_other p : opt_policy p = OOther <-> ignores p = true.
   Proof. destruct p; cbn; split; congruence. Qed.
 
-  Theorem fit_inputs_finite ff p maxf n0 hist :
-    let st := run true p n0 hist in
+  (* for every optimizer state whose told values are clean (and hold no failure under "ignore") *)
+  Theorem fit_inputs_finite_inv ff p maxf st : Inv p st ->
     has_success (yi st) = true \/ (length (yi st) < maxf)%nat ->
     exists ys, fit_input sc scal ff (opt_policy p) maxf (yi st) = Some ys /\ fit_ok ys = true /\ length ys = length (yi st).
   Proof.
-    intros st H. destruct (run_inv p n0 hist) as [Hc Hi]. fold st in Hc, Hi.
+    intros [Hc Hi] H.
     destruct (scalarized_spec sc scal Hsc Hscal (yi st) Hc) as [Hz Hm].
     destruct (same_fail_map _ _ Hm) as (L1 & L2 & L3 & L4).
     unfold fit_input. destruct (ignores p) eqn:Eg.
@@ -231,13 +243,18 @@ Section Pipeline.
         destruct (filter_all_failed ff _ maxf _ Hp Hs Hz Hlt) as (r & Hr & Hok & Hl). exists r. repeat split; [exact Hr | exact Hok | lia].
   Qed.
 
-  (* the one documented exception *)
-  Theorem fit_exhausted_iff ff p maxf n0 hist :
+  Theorem fit_inputs_finite ff p maxf n0 hist :
     let st := run true p n0 hist in
-    fit_input sc scal ff (opt_policy p) maxf (yi st) = None <->
-    ignores p = false /\ has_success (yi st) = false /\ (maxf <= length (yi st))%nat.
+    has_success (yi st) = true \/ (length (yi st) < maxf)%nat ->
+    exists ys, fit_input sc scal ff (opt_policy p) maxf (yi st) = Some ys /\ fit_ok ys = true /\ length ys = length (yi st).
+  Proof. intros st. apply fit_inputs_finite_inv. apply run_inv. Qed.
+
+  (* the one documented exception *)
+  Theorem fit_exhausted_iff_inv ff p maxf st : Inv p st ->
+    (fit_input sc scal ff (opt_policy p) maxf (yi st) = None <->
+     ignores p = false /\ has_success (yi st) = false /\ (maxf <= length (yi st))%nat).
   Proof.
-    intros st. destruct (run_inv p n0 hist) as [Hc Hi]. fold st in Hc, Hi.
+    intros [Hc Hi].
     destruct (scalarized_spec sc scal Hsc Hscal (yi st) Hc) as [Hz Hm].
     destruct (same_fail_map _ _ Hm) as (L1 & L2 & L3 & L4).
     unfold fit_input. rewrite filter_exhausted, L1. split.
@@ -250,6 +267,12 @@ Section Pipeline.
       + destruct (succ_of (scalarized sc scal (yi st))) eqn:E; [reflexivity|]. exfalso.
         assert (has_success (scalarized sc scal (yi st)) = true) by (apply has_success_succ; rewrite E; discriminate). congruence.
   Qed.
+
+  Theorem fit_exhausted_iff ff p maxf n0 hist :
+    let st := run true p n0 hist in
+    fit_input sc scal ff (opt_policy p) maxf (yi st) = None <->
+    ignores p = false /\ has_success (yi st) = false /\ (maxf <= length (yi st))%nat.
+  Proof. intros st. apply fit_exhausted_iff_inv. apply run_inv. Qed.
 End Pipeline.
 
 (* failures do not count toward n_initial_points; with at least one initial point a fit only happens after a success,
